@@ -14,6 +14,10 @@ import Sqfs.Proofs.TarConv
 import Sqfs.Proofs.TarHeaderFull
 import Sqfs.Proofs.TarFixIter
 import Sqfs.Proofs.TarFixConv
+import Sqfs.Proofs.TarSqfs2tar
+import Sqfs.Proofs.TarPaxNum
+import Sqfs.Proofs.TarPaxUrl
+import Sqfs.Proofs.TarPaxB64
 namespace Sqfs.C04
 open Sqfs.Tar
 
@@ -353,9 +357,109 @@ theorem pax_record_spec (pc : PaxCfg) (st : PaxState) (kw value rest : Bytes) (h
             (paxRecord (ascii "linkpath") value).length) := by
   refine ⟨paxLine_record pc st kw value rest hne hk hsp, ?_, ?_⟩
   · have : findHandler (ascii "path") = some .path := by decide
-    simp only [paxApply, this, applyHandler, kindFlag]
+    have hne : ¬ (PaxKind.path = PaxKind.sparseMap) := by decide
+    simp only [paxApply, this, applyHandler, kindFlag, hne, if_false]
   · have : findHandler (ascii "linkpath") = some .linkpath := by decide
-    simp only [paxApply, this, applyHandler, kindFlag]
+    have hne : ¬ (PaxKind.linkpath = PaxKind.sparseMap) := by decide
+    simp only [paxApply, this, applyHandler, kindFlag, hne, if_false]
+
+/--
+**`GNU.sparse.map` replaces the list** (pax_header.c:350-353, /repo 56b164f).  A `GNU.sparse.map` record (PAX sparse format 0.1) sets
+the member's sparse map to the parsed list and makes the parser forget the tail of the list that earlier `GNU.sparse.numbytes`
+records (format 0.0) were appended to; the next `GNU.sparse.numbytes` record therefore starts a new one-element list instead of
+appending to the replaced (freed) one.  Whatever kind of record comes last determines the map.
+-/
+theorem pax_sparse_map_replaces (pc : PaxCfg) (st : PaxState) (value : Bytes) (len : Nat) (m : List (Nat × Nat))
+    (hm : paxSparseMap (cstr value) = some m) :
+    ∃ st1, paxApply pc st (ascii "GNU.sparse.map") value len = some (st1, len) ∧ st1.out.sparse = m ∧ st1.sparseStarted = false ∧
+      ∀ (v2 : Bytes) (len2 v n : Nat), parseUint (cstr v2) = some (v, n) →
+        ∃ st2, paxApply pc st1 (ascii "GNU.sparse.numbytes") v2 len2 = some (st2, len2) ∧ st2.out.sparse = [(st1.offset, v)] := by
+  have h1 : findHandler (ascii "GNU.sparse.map") = some .sparseMap := by decide
+  have h2 : findHandler (ascii "GNU.sparse.numbytes") = none := by decide
+  have h3 : ¬ (ascii "GNU.sparse.numbytes" = ascii "GNU.sparse.offset") := by decide
+  refine ⟨_, by simp only [paxApply, h1, applyHandler, hm, Option.map_some, if_true]; rfl, rfl, rfl, ?_⟩
+  intro v2 len2 v n hv
+  refine ⟨_, by simp only [paxApply, h2, h3, if_false, if_true, hv, Bool.false_eq_true]; rfl, rfl⟩
+
+/--
+**PAX numeric values are exact or refused** (`parse_uint` / `parse_int` of lib/util/src/parse_int.c as `pax_header.c` calls them
+for `uid`, `gid`, `size`, `mtime`, `GNU.sparse.*`).  On a non-empty string of decimal digits `ds` followed by the end of the value
+or by any non-digit (the '.' of a fractional `mtime`, the ',' of a sparse map): `parse_uint` returns exactly the number the digits
+denote and the number of digits consumed whenever that number is below `(2^64 − 1) / 10 · 10`, and an error otherwise — the
+overflow test is conservative (the six largest 64-bit values are refused too), but no value is ever wrapped or truncated, however
+many leading zeros or digits there are.  `parse_int` does the same for an optional '-' and the bound `2^63 − 1`.
+-/
+theorem pax_number_exact_or_error (ds rest : Bytes) (hne : ds ≠ []) (hd : ∀ c ∈ ds, isDigit c = true)
+    (hr : ∀ c, rest.head? = some c → isDigit c = false) :
+    parseUint (ds ++ rest) = (if decVal ds < PARSE_UINT_BOUND then some (decVal ds, ds.length) else none) ∧
+    parseInt (ds ++ rest) = (if decVal ds < 0x7FFFFFFFFFFFFFFF then some (decVal ds : Int) else none) ∧
+    parseInt (45 :: (ds ++ rest)) = (if decVal ds < 0x7FFFFFFFFFFFFFFF then some (-(decVal ds : Int)) else none) := by
+  have hu := parseUint_spec ds rest hne hd hr
+  have hB : PARSE_UINT_BOUND = 18446744073709551610 := rfl
+  have key : ∀ (f : Nat → Int),
+      (match (if decVal ds < PARSE_UINT_BOUND then some (decVal ds, ds.length) else none : Option (Nat × Nat)) with
+        | none => none
+        | some (v, _) => if v ≥ 0x7FFFFFFFFFFFFFFF then none else some (f v)) =
+      (if decVal ds < 0x7FFFFFFFFFFFFFFF then some (f (decVal ds)) else none) := by
+    intro f
+    by_cases h1 : decVal ds < PARSE_UINT_BOUND
+    · by_cases h2 : decVal ds < 0x7FFFFFFFFFFFFFFF
+      · have h3 : ¬ decVal ds ≥ 0x7FFFFFFFFFFFFFFF := by omega
+        simp only [h1, h2, h3, if_true, if_false]
+      · have h3 : decVal ds ≥ 0x7FFFFFFFFFFFFFFF := by omega
+        simp only [h1, h2, h3, if_true, if_false]
+    · have h2 : ¬ decVal ds < 0x7FFFFFFFFFFFFFFF := by omega
+      simp only [h1, h2, if_false]
+  refine ⟨hu, ?_, ?_⟩
+  · cases ds with
+    | nil => exact absurd rfl hne
+    | cons c t =>
+      have hc : isDigit c = true := hd c (by simp)
+      have h45 : c ≠ 45 := by intro h; subst h; revert hc; decide
+      rw [List.cons_append] at hu ⊢
+      rw [parseInt_pos c _ h45, hu]
+      exact key (fun v => (v : Int))
+  · rw [parseInt_neg, hu]
+    exact key (fun v => -(v : Int))
+
+/--
+**LIBARCHIVE xattr names** (`urldecode`, `pax_xattr_libarchive`).  libarchive percent-encodes the bytes of an attribute name it
+must escape (`esc`; at least the '%' itself) as `%XX` and writes the others literally.  For every NUL-free name and every such
+choice of escaped bytes the reader's `urldecode` returns exactly the name — '=' (`%3D`), blanks, non-ASCII bytes, '%' included.
+-/
+theorem libarchive_key_roundtrip (esc : UInt8 → Bool) (h37 : esc 37 = true) (k : Bytes) (hk : ∀ x ∈ k, x ≠ 0) :
+    cstr (urlDecode (urlEncode esc k)) = k := by
+  rw [urlDecode_encode esc h37 k, cstr_clean k hk]
+
+/--
+**LIBARCHIVE xattr records** (`pax_xattr_libarchive`: `base64_decode` + `urldecode`).  `base64_decode` inverts RFC 4648 base64 — with
+the '=' padding and without it (libarchive omits it) — for every byte string, of any length; hence the handler of a
+`LIBARCHIVE.xattr.<percent-encoded name>=<base64 value>` record adds exactly the pair (name, value) to the member's attributes,
+for every NUL-free name and every binary value.  (The record parser in front of the handler is `pax_record_spec`; the alternative
+alphabet characters '-' / '_' and malformed input are exercised, not proved.)
+-/
+theorem libarchive_xattr_roundtrip (pc : PaxCfg) (out : Decoded) (esc : UInt8 → Bool) (h37 : esc 37 = true) (k v : Bytes)
+    (hk : ∀ x ∈ k, x ≠ 0) :
+    base64Decode (b64Encode v) = some v ∧ base64Decode (b64EncodeNoPad v) = some v ∧
+    applyHandler pc out .libarchive (ascii "LIBARCHIVE.xattr." ++ urlEncode esc k) (b64Encode v) =
+      some { out with xattr := if pc.keepOrder then out.xattr ++ [(k, v)] else (k, v) :: out.xattr } ∧
+    applyHandler pc out .libarchive (ascii "LIBARCHIVE.xattr." ++ urlEncode esc k) (b64EncodeNoPad v) =
+      some { out with xattr := if pc.keepOrder then out.xattr ++ [(k, v)] else (k, v) :: out.xattr } := by
+  have hd : (ascii "LIBARCHIVE.xattr." ++ urlEncode esc k).drop 17 = urlEncode esc k := List.drop_left' (by decide)
+  have hkey := libarchive_key_roundtrip esc h37 k hk
+  refine ⟨base64Decode_encode v, base64Decode_encodeNoPad v, ?_, ?_⟩
+  · simp only [applyHandler, base64Decode_encode, hd, hkey]
+  · simp only [applyHandler, base64Decode_encodeNoPad, hd, hkey]
+
+/--
+**The PAX 0.1 sparse map parser** (`pax_sparse_map`, the `GNU.sparse.map` record).  For every non-empty list of pairs of decimal
+numbers (each a non-empty digit string below the bound of `parse_uint`, leading zeros allowed) the value
+`off,num,off,num,…` is parsed into exactly those pairs, in order — no pair lost, merged or reordered, for maps of any length.
+(Malformed values — a missing number, a trailing comma, other characters — are refused; that part is exercised, not proved.)
+-/
+theorem pax_sparse_map_spec (l : List (Bytes × Bytes)) (hne : l ≠ []) (hd : ∀ p ∈ l, IsDec p.1 ∧ IsDec p.2) :
+    paxSparseMap (renderMap l) = some (l.map fun p => (decVal p.1, decVal p.2)) :=
+  paxSparseMap_spec l hne hd
 
 /-! ## sparse files (`iterator.c`) -/
 
@@ -627,8 +731,8 @@ nodes.  Then
 theorem fixpoint_entry_level (img : ImgData) (t : List TNode) (h : FromImage img t) (i : Nat) (hi : i < t.length)
     (counter : Nat) (rest : Bytes) (devs : List (List Bytes × Nat × Nat)) :
     ∃ b, entryBytes img t[i] counter = some b ∧
-      (∃ x s1 k1, IterEntry.view x = viewOf img t[i] ∧ s1.drop k1 = rest ∧
-        ∀ f s0 k acc, s0.drop k = b ++ rest →
+      (∃ x s1 k1, IterEntry.view x = viewOf img t[i] ∧ istreamSkip s1 k1 = some rest ∧
+        ∀ f s0 k acc, istreamSkip s0 k = some (b ++ rest) →
           iterLoop {} 512 (f + 1) s0 k acc = iterLoop {} 512 f s1 k1 (acc ++ [x])) ∧
       (∀ x, IterEntry.view x = viewOf img t[i] →
         convStep processEntry {} (some (t.take i, devs)) x =
@@ -685,6 +789,82 @@ theorem fixpoint_idempotent (img : ImgData) (t t2 : List TNode) (d2 : List (List
   rw [h1] at h2
   obtain ⟨rfl, rfl⟩ := Prod.mk.inj (Option.some.inj h2)
   exact ⟨rfl, h1⟩
+
+/-! ## archives that end inside a member (`sqfs_istream_skip`, /repo 1ef571c) -/
+
+/--
+**A cut inside an extension record's padding or inside skipped data is an error, never a clean end.**  For every stream:
+(1) `record_to_memory` (GNU 'L'/'K' and PAX 'x' payloads) fails unless the payload *and* its padding to the next 512-byte
+boundary are there; (2) the directory iterator's `next` fails — it does not report the end of the archive — when fewer bytes are
+left than the rest of the previous member's record and padding that it has to skip (a member whose data or padding is cut, an
+unknown record that is cut), whatever the bytes are and however many entries were delivered before.
+-/
+theorem cut_record_is_error (s : Bytes) (size : Nat) (cfg : ReadCfg) (want f skip : Nat) (acc : List IterEntry) :
+    (s.length < size + padding size → recordToMemory s size = none) ∧
+    (s.length < skip → iterLoop cfg want (f + 1) s skip acc = (acc, .err)) := by
+  constructor
+  · intro h
+    unfold recordToMemory istreamSkip
+    by_cases h1 : s.length < size
+    · rw [if_pos h1]
+    · rw [if_neg h1]
+      have : (s.drop size).length < padding size := by rw [List.length_drop]; omega
+      rw [if_pos this]
+  · intro h
+    rw [iterLoop]
+    unfold istreamSkip
+    rw [if_pos h]
+
+/-! ## sqfs2tar: hard links (`lib/sqfs/src/io/dir_hl.c` on top of `bin/sqfs2tar/src/iterator.c`) -/
+
+/--
+**Hard links before and after their targets.**  Let `es` be the entries sqfs2tar's iterator hands out (names as emitted: after the
+`--subdir` strip and the `--root-becomes` prefix) and `hlFilter [] es` what the hard-link filter makes of them.  Entry by entry:
+a directory passes unchanged; any other entry is reported as a hard link exactly when an *earlier* non-directory entry has the same
+inode reference, and then it points to the emitted name of the **first** such entry (mode `S_IFLNK | 0777`, flag set, no xattrs,
+no data) — otherwise it passes unchanged (and is the target of every later name of its inode).  Which name of an inode is the
+"file" and which are links therefore depends only on the order of the directory listing, never on the order of the members of
+the archive the image was made from.  This is the fact `FromImage.hardTarget` (`Spec/TarFix.lean`) builds on; the model function
+is compared with the real filter on every run (`s2tents` / `s2t`, generated images with links before and after their targets).
+-/
+theorem hardlink_filter_spec (es : List RawEnt) (i : Nat) (hi : i < es.length) :
+    (hlFilter [] es).length = es.length ∧
+    (hlFilter [] es)[i]'(by rw [hlFilter_length]; exact hi) =
+      if fmt es[i].mode = S_IFDIR then es[i]
+      else hlMark es[i] ((linkable (es.take i)).find? (·.1 = es[i].inode)) := by
+  refine ⟨hlFilter_length [] es, ?_⟩
+  have := hlFilter_getElem es [] i hi
+  simpa using this
+
+/--
+**`sqfs2tar --subdir`** (`keep_entry`, bin/sqfs2tar/src/iterator.c).  For one `--subdir` argument `p` an entry is kept exactly when
+it is `p` itself, an ancestor directory of `p`, or lies below `p` — where "below" means that the name continues with a '/' after
+`p`: a sibling whose name merely *starts* with `p` (`d.y`, `dx` next to `d`) is not selected.  (With several arguments an entry is
+kept when one of them keeps it: `keepEntry` is the disjunction.)  The model function is compared with the real tool on every run
+on images that contain such siblings.
+-/
+theorem subdir_selection_spec (p name : Bytes) :
+    (keepFor p name = true ↔ name = p ∨ isBelow name p = true ∨ isBelow p name = true) ∧
+    (isBelow p name = true ↔ p.length < name.length ∧ name[p.length]? = some Sqfs.Path.SL ∧ name.take p.length = p) := by
+  refine ⟨keepFor_iff p name, ?_⟩
+  simp [isBelow]
+
+/--
+**Fix-point behind sqfs2tar's options.**  Whatever `--subdir` / `--keep-as-dir` / `--root-becomes` / `--no-hard-links` options
+sqfs2tar is given (without `--no-skip`): the bytes it writes — `sqfs2tarFull`, the function that is compared with the real tool's
+standard output on every run — are `sqfs2tar` applied to the entries that survive the selection, under their emitted names, with
+the hard links the filter finds *among them*; and whenever those entries form a tree (`FromImage`: parents emitted before their
+children — i.e. the new root is a single directory or absent —, no sockets), tar2sqfs on these bytes rebuilds exactly that tree:
+every emitted entry, nothing else, same order, link targets as emitted.
+-/
+theorem fixpoint_sqfs2tar_options (o : S2tOpts) (root : RootInfo) (raw : List RawEnt) (hs : o.dontSkip = false)
+    (h : FromImage (imgOfEnts (s2tEntries o root raw)) ((s2tEntries o root raw).map nodeOfEnt)) :
+    sqfs2tarFull o root raw = some (sqfs2tar (imgOfEnts (s2tEntries o root raw)) ((s2tEntries o root raw).map nodeOfEnt)) ∧
+    tar2sqfsTree {} (sqfs2tar (imgOfEnts (s2tEntries o root raw)) ((s2tEntries o root raw).map nodeOfEnt)) =
+      some ((s2tEntries o root raw).map nodeOfEnt,
+            devsOf (imgOfEnts (s2tEntries o root raw)) ((s2tEntries o root raw).map nodeOfEnt)) := by
+  refine ⟨?_, (fixpoint_tree_level _ _ h).1⟩
+  simp [sqfs2tarFull, hs]
 
 /-! ### layout facts the models rely on, re-checked against `include/tar/format.h` on every run
 (`Sqfs/Generated/Consts.lean` is regenerated from the working tree; a changed offset or width breaks this build) -/
@@ -796,6 +976,59 @@ set_option maxRecDepth 1000000 in
 set_option maxHeartbeats 4000000 in
 example : tar2sqfsTree {} (sqfs2tar exImg exTree) = some (exTree, devsOf exImg exTree) := by decide
 
+/-! #### `fixpoint_sqfs2tar_options`: a listing with a directory that is not selected, a sibling whose name extends the selected
+directory's name, and two names of one inode below the selected directory; `--subdir d --root-becomes r` -/
+abbrev exRaw : List RawEnt :=
+  [ ⟨ascii "d", 0o040755, 0, 0, 7, 1, none, [], [], 0, 0, false⟩,
+    ⟨ascii "d/a", 0o100644, 1000, 1000, 8, 2, none, [104, 105], [(ascii "user.k", [1])], 0, 0, false⟩,
+    ⟨ascii "d/b", 0o100644, 1000, 1000, 8, 2, none, [104, 105], [(ascii "user.k", [1])], 0, 0, false⟩,
+    ⟨ascii "d.y", 0o100600, 0, 0, 9, 3, none, [1], [], 0, 0, false⟩,
+    ⟨ascii "dx", 0o040700, 0, 0, 9, 4, none, [], [], 0, 0, false⟩,
+    ⟨ascii "dx/g", 0o100600, 0, 0, 9, 5, none, [2], [], 0, 0, false⟩ ]
+abbrev exOpts : S2tOpts := { subdirs := [ascii "d"], rootBecomes := some (ascii "r") }
+
+set_option maxRecDepth 100000 in
+example : (s2tEntries exOpts {} exRaw).map (fun e => (e.name, e.hardLink, e.target)) =
+    [(ascii "r", false, none), (ascii "r/a", false, none), (ascii "r/b", true, some (ascii "r/a"))] := by decide
+
+abbrev exTree2 : List TNode :=
+  [⟨[ascii "r"], 0o040755, 0, 0, 0, false, false, none⟩, ⟨[ascii "r", ascii "a"], 0o100644, 1000, 1000, 8, false, false, none⟩,
+   ⟨[ascii "r", ascii "b"], 0o120777, 1000, 1000, 8, false, true, some (ascii "r/a")⟩]
+
+set_option maxRecDepth 1000000 in
+example : FromImage (imgOfEnts (s2tEntries exOpts {} exRaw)) ((s2tEntries exOpts {} exRaw).map nodeOfEnt) := by
+  have he : (s2tEntries exOpts {} exRaw).map nodeOfEnt = exTree2 := by decide
+  rw [he]
+  exact
+  { nodes := by
+      intro n hn
+      simp only [List.mem_cons, List.not_mem_nil, or_false] at hn
+      rcases hn with rfl | rfl | rfl
+      all_goals exact
+        { pathNe := by decide, comps := by decide, kind := by decide, explicit := by decide, uid := by decide, gid := by decide,
+          mtime := by decide, lnkMode := by decide, hardMode := by decide,
+          lnkTarget := by first | (intro h; exact absurd h (by decide)) | (intro _; exact ⟨_, rfl, by decide, by decide⟩),
+          hardTarget := by first | (intro h; exact absurd h (by decide)) | (intro _; exact ⟨_, rfl, by decide⟩),
+          noTarget := by decide, dev := by decide, nameLen := by decide, contentLen := by decide, keyNul := by decide,
+          paxLen := by decide }
+    distinct := by
+      intro i j hi hj h
+      have hnd : (exTree2.map (·.path)).Nodup := by decide
+      exact (List.getElem_inj (xs := exTree2.map (·.path)) (i := i) (j := j) (h₀ := by simpa using hi) (h₁ := by simpa using hj) hnd).1
+        (by rw [List.getElem_map, List.getElem_map]; exact h)
+    parents := by
+      intro i hi k h0 hk
+      have hi' : i < 3 := hi
+      rcases i with _ | _ | _ | i
+      · simp [exTree2] at hk; omega
+      · have : k = 1 := by simp [exTree2] at hk; omega
+        subst this
+        exact ⟨0, by decide, by decide, rfl, rfl⟩
+      · have : k = 1 := by simp [exTree2] at hk; omega
+        subst this
+        exact ⟨0, by decide, by decide, rfl, rfl⟩
+      · omega }
+
 /-! #### foreign dialects: a POSIX ustar block with a `prefix` (a dialect the own writer never produces), a GNU 'L' record
 header, a PAX `path` record -/
 abbrev posixBlock : Bytes :=
@@ -829,6 +1062,39 @@ example : IsHdr (hdrBlock (field 100 ((ascii "././@LongLink").take 99)) 0o644 0 
   ext_isHdr ⟨[], 0, 0, 0, 0, 0, 0, 0, false⟩ (ascii "a/long/name") 76 (ascii "././@LongLink") (by decide)
 
 example : (paxRecord (ascii "path") (ascii "x/y")) = ascii "12 path=x/y\n" := by decide
+-- `pax_number_exact_or_error`: the largest accepted value, the smallest refused one, a fractional mtime, leading zeros
+example : parseUint (ascii "18446744073709551609") = some (18446744073709551609, 20) ∧ parseUint (ascii "18446744073709551610") = none ∧
+    parseInt (ascii "1542905892.5") = some 1542905892 ∧ parseInt (ascii "-000000000000000000000000017,") = some (-17) := by decide
+-- `libarchive_xattr_roundtrip`: the encoders are base64 ("ABC" -> "QUJD", "AB" -> "QUI=" / "QUI")
+example : b64Encode (ascii "ABC") = ascii "QUJD" ∧ b64Encode (ascii "AB") = ascii "QUI=" ∧ b64EncodeNoPad (ascii "AB") = ascii "QUI" ∧
+    b64Encode [0xfb, 0xff] = ascii "+/8=" := by decide
+-- `libarchive_key_roundtrip`: '=' and '%' escaped, the rest literal
+example : urlEncode (fun c => c = 37 || c = 61) (ascii "user.a=b%") = ascii "user.a%3Db%25" ∧
+    urlDecode (ascii "user.a%3Db%25") = ascii "user.a=b%" := by decide
+-- `pax_sparse_map_spec`: the hypotheses hold for a real map, and `renderMap` is the record's syntax
+example : renderMap [(ascii "10", ascii "3"), (ascii "020", ascii "2")] = ascii "10,3,020,2" ∧ IsDec (ascii "020") ∧ decVal (ascii "020") = 20 := by
+  refine ⟨by decide, ⟨by decide, by decide, by decide⟩, by decide⟩
+-- `subdir_selection_spec`: `d` selects itself, its ancestor-free self, `d/x`, but neither `dx` nor `d.y`
+example : keepFor (ascii "a/d") (ascii "a") = true ∧ keepFor (ascii "a/d") (ascii "a/d/x") = true ∧ keepFor (ascii "a/d") (ascii "a/dx") = false ∧
+    keepFor (ascii "a/d") (ascii "a/d.y") = false ∧ keepFor (ascii "a/d") (ascii "b") = false := by decide
+-- `hardlink_filter_spec` on a listing with a directory, three names of inode 7 and one other file: the first name in listing
+-- order stays a file, the later ones point to it
+set_option maxRecDepth 100000 in
+example : (hlFilter [] [⟨ascii "d", S_IFDIR + 0o755, 0, 0, 0, 7, none, [], [], 0, 0, false⟩,
+      ⟨ascii "d/a", S_IFREG + 0o644, 0, 0, 0, 7, none, [1], [], 0, 0, false⟩, ⟨ascii "d/b", S_IFREG + 0o644, 0, 0, 0, 8, none, [], [], 0, 0, false⟩,
+      ⟨ascii "e", S_IFREG + 0o644, 0, 0, 0, 7, none, [1], [], 0, 0, false⟩]).map (fun e => (e.name, e.hardLink, e.target)) =
+    [(ascii "d", false, none), (ascii "d/a", false, none), (ascii "d/b", false, none), (ascii "e", true, some (ascii "d/a"))] := by decide
+-- `pax_sparse_map_replaces`: its hypothesis holds for a real map; and the whole parser on numbytes, map, numbytes in one PAX header
+-- (the input of /repo 56b164f): the record that comes last determines the map
+example : paxSparseMap (cstr (ascii "10,3,20,2")) = some [(10, 3), (20, 2)] := by decide
+set_option maxRecDepth 1000000 in
+example : (readPaxHeader {} (paxRecord (ascii "GNU.sparse.offset") (ascii "1") ++ paxRecord (ascii "GNU.sparse.numbytes") (ascii "2") ++
+      paxRecord (ascii "GNU.sparse.map") (ascii "10,3,20,2") ++ paxRecord (ascii "GNU.sparse.offset") (ascii "50") ++
+      paxRecord (ascii "GNU.sparse.numbytes") (ascii "4")) {} 0).map (·.1.sparse) = some [(50, 4)] := by decide
+-- the reader on streams that end inside the padding of an extension record / inside a 'g' record (since /repo 1ef571c: error)
+set_option maxRecDepth 1000000 in
+example : recordToMemory ([1, 2, 3] ++ zeros 508) 3 = none ∧ (recordToMemory ([1, 2, 3] ++ zeros 509 ++ [7]) 3).map (·.2) = some [7] := by
+  decide
 
 /-- `implicit_parents`: its hypothesis is satisfiable (two directories are created implicitly) -/
 example : (addGeneric {} [] ⟨ascii "a/b/c", 0o100644, 0, 0, 0, false, none, 0, 0⟩).map (fun t => t.map (·.path)) =
